@@ -133,10 +133,21 @@ class Sched(object):
             if self.opcode_attrs and self._is_fine(frame.f_code):
                 frame.f_trace_opcodes = True
             return self._trace
-        if event == 'line' and not frame.f_trace_opcodes:
-            self.point(('line', frame.f_code.co_name, frame.f_lineno))
-        elif event == 'opcode':
-            self.point(('op', frame.f_code.co_name, frame.f_lasti))
+        try:
+            if event == 'line' and not frame.f_trace_opcodes:
+                self.point(('line', frame.f_code.co_name, frame.f_lineno))
+            elif event == 'opcode':
+                self.point(('op', frame.f_code.co_name, frame.f_lasti))
+        except Abort:
+            # An exception leaving a trace function makes CPython drop the thread's trace function, and CPython 3.12.1 then calls
+            # the dropped (NULL) function at the next opcode event of any frame that still has f_trace_opcodes set, e.g. in the
+            # clean-up code of a `with` or `finally` the unwinding passes through (segmentation fault). Switch them off first.
+            f = frame
+            while f is not None:
+                if f.f_trace_opcodes:
+                    f.f_trace_opcodes = False
+                f = f.f_back
+            raise
         return self._trace
 
     # ---- scheduling
